@@ -12,13 +12,14 @@ from simkit.common import V
 from . import snapcommon
 
 ID = "C06"
+ZOO = hostgen.OFFENDERS + hostgen.OFFENDERS_HOSTILE
 LEVEL = "exploration"
 BUDGET = {"quick": (2500, 35), "thorough": (600_000, 540)}
 RULE = ("offender zoo (%d awkward values: no __dict__, non-string keys, raising __str__/__repr__/__len__/__iter__/"
         "__getattr__/__dict__/__class__/__eq__/__bool__, generators and iterators, lone surrogates, bytes, ...) x "
         "position (local / nested in list / dict value / object attribute / watch result) x 1-3 co-located "
         "tracepoints (service or direct) x 1-2 threads x seeded schedules; non-trivial = a due tracepoint event "
-        "with an offender in scope; distinct = distinct (offender, position, tracepoint set) keys" % len(hostgen.OFFENDERS))
+        "with an offender in scope; distinct = distinct (offender, position, tracepoint set) keys" % len(ZOO))
 COMPONENTS = {"real": ["whole Deep agent", "collector/BFS/variable processors", "push conversion + generated stubs"],
               "stub": ["threads/clock/executor", "gRPC channel + DEEP service"]}
 ASSUMPTIONS = ["offending dunders are stateless (the host's own behaviour is identical with and without the agent)",
@@ -29,12 +30,12 @@ TEXT = ("Seeded fault injection at the host-object seam against an independent r
 NOTE = "Trusts the reference renderer (refmodel/snapcheck) and the recorder's event attribution."
 TECHNIQUE = "deterministic simulation: fault injection at host-object seam, reference-frame oracle"
 
-POSITIONS = ("local", "local", "inlist", "dictval", "attr", "watch", "deepnest")
+POSITIONS = ("local", "local", "inlist", "dictval", "attr", "watch", "deepnest", "self")
 
 
 def generate(seed, tier):
     r = random.Random(seed)
-    off = r.choice(hostgen.OFFENDERS)
+    off = r.choice(ZOO)
     pos = r.choice(POSITIONS)
     ntp = r.choice((1, 1, 2, 3))
     tps = []
@@ -62,6 +63,10 @@ def _opts(scenario):
     post = []
     if pos == "local":
         pre.append("off = %s" % off)
+    elif pos == "self":
+        # the frame's `self` is the awkward object: the collector reads its class for the frame header
+        pre.append("off = %s" % off)
+        pre.append("self = off")
     elif pos == "inlist":
         pre.append("off = [1, %s, 'after']" % off)
     elif pos == "dictval":
@@ -138,7 +143,8 @@ def execute(scenario, ch):
                               "event: %s)" % (tp["id"], names[:4], [(t_["id"], (t_.get("args") or {}).get("frame_type"))
                                                                     for t_ in scenario["tps"]])))
             continue
-        if ft == "all_frame" and outer_host and len(outer_with_vars) < len(outer_host):
+        slow = o["off"].startswith("SlowStr")   # outlasts the time budget: this snapshot's OWN outer frames may go without
+        if ft == "all_frame" and outer_host and len(outer_with_vars) < len(outer_host) and not slow:
             viol.append(V("frame-type-not-its-own:all_frame-lacks-outer-variables", "%s: host frames %s, with variables %s "
                           "(others on the event: %s)" % (tp["id"], outer_host, outer_with_vars, [
                               (t_["id"], (t_.get("args") or {}).get("frame_type")) for t_ in scenario["tps"]])))
@@ -147,16 +153,16 @@ def execute(scenario, ch):
                 tp["id"], outer_with_vars)))
         for need in real:
             if need not in names:
-                which = "offender" if need == "off" else "bystander"
+                which = "offender" if need in ("off", "self") else "bystander"
                 viol.append(V("%s-variable-missing:%s" % (which, tag), "%s not in frame variables %s of %s" % (
                     need, names, tp["id"])))
         roots, issues = snapcheck.frame_roots(view, 0, cap["graph"], real)
         # bystanders: full C02-style rendering check; offender subtree: only closure and presence of text
-        by_roots = [x for x in roots if x[0].name != "off"]
+        by_roots = [x for x in roots if x[0].name not in ("off", "self")]
         res = snapcheck.walk(view, by_roots, cap["graph"], string_limit=1024, collection_limit=10)
         for iss in res.issues + [i_ for i_ in issues if i_.code in ("phantom-local", "duplicate-local")]:
             viol.append(V("bystander-%s:%s" % (iss.code, tag), repr(iss)))
-        off_roots = [x for x in roots if x[0].name == "off"]
+        off_roots = [x for x in roots if x[0].name in ("off", "self")]
         res2 = snapcheck.walk(view, off_roots, cap["graph"], string_limit=1024, collection_limit=10, strict_text=False)
         for iss in res2.issues:
             if iss.code in ("dangling-ref", "phantom-child"):
